@@ -53,6 +53,13 @@ def ka_histories(rng, n):
             if pool['start_method'] == 'fork' and rng.random() < .3:
                 op['worker_exit_timeout'] = 60.0        # a timeout that never fires must not change what the exit function returns
             ops.append(op)
+            if k < 3 and rng.random() < .25:
+                # a setter that really changes a pool parameter: the kept workers are retired (with their worker_exit) at the next call
+                what = rng.choice(['pass_worker_id', 'shared_objects', 'use_worker_state'])
+                cur_val = [o2['value'] for o2 in ops if o2.get('what') == what][-1:] or [bool(pool.get(what))]
+                ops.append({'op': 'set', 'what': what, 'value': not cur_val[0]})
+        if ops[-1]['op'] == 'set':
+            ops.pop()
         ops.append({'op': 'stop_and_join', 'want_exit_results': True})
         scs.append({'seed': rng.randint(0, 10 ** 6), 'pool': pool, 'ops': ops, 'same_func': rng.random() < .3, 'relax_shape': True})
     return scs
@@ -76,13 +83,15 @@ def ka_judge(chk, sc, o):
             chk.violation('instance_shape_over_history', case, {'instance': cs[0][2], 'token': tok, 'sequence': kinds[:80]},
                           'per worker instance: init, then one or more tasks, then exit (an instance without tasks runs neither)', input_class='ka_shape')
             return
+    if any(op['op'] == 'set' for op in sc['ops']):
+        return      # the exit results are kept per generation of workers: only the per-instance shape is asserted across a restart
     ex = o['ops'][-1].get('exit_results') or []
     got = collections.Counter(tuple(x) if isinstance(x, list) else x for x in ex)
     want = collections.Counter(('exit', tok, sum(1 for c in cs if c[1] == 'task' and c[7] is not None)) for tok, cs in by.items())
     if got != want:
         chk.violation('exit_results_conserved_over_history', case, {'got': sorted(got.elements(), key=str)[:8], 'expected': sorted(want.elements(), key=str)[:8]},
                       'get_exit_results() == the values returned by the exit invocations', input_class='ka_exit_results')
-    elif sum(x[2] for x in got.elements()) != sum(op['n'] for op in sc['ops'] if 'n' in op):
+    elif sum(x[2] for x in got.elements()) != sum(op['n'] for op in sc['ops'] if 'n' in op and op['op'] != 'set'):
         chk.violation('exit_results_account_for_every_task', case, {'sum': sum(x[2] for x in got.elements())}, 'every task is accounted once', input_class='ka_exit_sum')
 
 
